@@ -48,7 +48,9 @@ func TestMain(m *testing.M) {
 			"(b) the real gater (optionally reopened from its datastore) inside a real swarm over scripted transports with a fake DNS resolver; every outbound attempt is started, with no connection "+
 			"to the peer in place, through a generated entry point: Network.DialPeer, Network.NewStream (the swarm's implicit dial) and, in a third of the cases, Connect / NewStream of a real BasicHost "+
 			"built on that swarm (the scripted remotes answer multistream for one probe protocol, 'na' to identify); every recorded transport dial, the result of the starting call (error, or the "+
-			"connection / stream's connection it handed out), ConnsToPeer and Connected notifications are audited against the model over two phases with rule changes in between, by the same rule whatever call started the attempt. "+
+			"connection / stream's connection it handed out), ConnsToPeer, Connected notifications and Network.CanDial for every candidate address are audited against the model over two phases with rule changes in between, by the same rule whatever call started the attempt. "+
+			"Candidate addresses per peer (1..4, mixed): direct /ip4 /ip6 (all spellings) over tcp/quic-v1/ws/webtransport, /dns* and /dnsaddr names resolved by the fake resolver, and circuit addresses "+
+			"<relay IP or /dns* name of the relay>/<tcp|quic-v1|ws|webtransport>/p2p/<relay>/p2p-circuit (owned by a scripted proxy transport) whose relay IP comes from the same pool as the rules, plus IP-less /p2p/<relay>/p2p-circuit. "+
 			"(c) the real gater behind the real upgrader (Noise + yamux) on an in-memory listener inside a real swarm: per inbound attempt the raw server-side conn's byte counters, "+
 			"its closure and the swarm's admission are audited; the QUIC and the WebTransport transports' own call sites (listener and dialer) run over simnet with arbitrary source IPs, "+
 			"WebTransport alone or next to QUIC on the same ConnManager and UDP port, each under both ConnManager configurations: bare quicreuse.NewConnManager, and with the ConnContext option "+
@@ -66,7 +68,8 @@ func TestMain(m *testing.M) {
 		"IP values have length 4 or 16; a Block*/Unblock* call that returns an error leaves the model unchanged whatever the reason",
 		"inbound forms are those a net.Addr can produce plus hand-built /ip6/::ffff: multiaddrs; the WebRTC listener's own call site is not driven",
 		"the scope-at-accept ConnManager configuration copies the ConnContext function of config/config.go over a NullResourceManager (a full libp2p.New host is not built); VerifySourceAddress and metrics options are left out",
-		"a relay (p2p-circuit) address whose relay IP is blocked may or may not be refused (the remote is the peer behind the relay)",
+		"a relay (p2p-circuit) address names the relay's IP: as an outbound candidate it is judged like a direct address of that IP (the dial opens or re-uses a connection with it: "+
+			"InterceptAddrDial refuses it, the swarm neither hands it to the relay transport nor reports it dialable); as the remote address of an inbound connection it may or may not be refused (the remote is the peer behind the relay)",
 	)
 	hx.Main(m)
 }
@@ -875,6 +878,7 @@ type failer interface {
 // obs collects what a comparison saw (for the non-trivial rule / labels).
 type obs struct {
 	noncanonBlocked, edgeBlocked, edgeFree, unspecified, ambiguous bool
+	relayBlocked                                                   bool // a circuit address through a blocked relay IP was refused for dialling
 	blockedProbes, freeProbes, refusedCalls                        int
 }
 
@@ -1000,11 +1004,20 @@ func checkGater(f failer, what string, g *conngater.BasicConnectionGater, w *wor
 		if pr.ip != nil {
 			iv = join(lo.ipVerdict(*pr.ip), hi.ipVerdict(*pr.ip))
 		}
-		if pr.relay && iv != no {
-			iv = either
-		}
 		conn := cma{l: localAddr, r: pr.addr}
 		addrDial := !g.InterceptAddrDial(p, pr.addr)
+		if pr.relay && iv != no {
+			// outbound, the IP of a circuit address is where the dial goes (a connection with the relay is
+			// opened or re-used): a rule in force on it rules the candidate out. As the remote address of an
+			// inbound connection it names the relay, not the remote: no verdict.
+			if iv == yes {
+				if !addrDial {
+					f.Fatalf("%s: InterceptAddrDial allows peer%d at %s although the relay's IP %v matches a rule in force", what, pi, pr.addr, pr.ip)
+				}
+				o.relayBlocked = true
+			}
+			iv = either
+		}
 		accept := !g.InterceptAccept(conn)
 		securedIn := !g.InterceptSecured(network.DirInbound, p, conn)
 		securedOut := !g.InterceptSecured(network.DirOutbound, p, conn)
